@@ -227,12 +227,27 @@ theorem trinv_applyOp {k : K} (ht : TInv k) (h : TrInv k) (op : KOp) : TrInv (ap
         obtain ⟨hq, hlt⟩ := pending_of_unlatched ht hl
         have h' : TrInv { k with latches := k.latches.set l (q, true) } := trinv_congr h rfl rfl
         exact trinv_rejectP h' q _ hq hlt
-  | addReactions p cap f g => exact trinv_addReactions h p cap f g
+  | addReactions p cap f g =>
+    simp only [applyOp]
+    split
+    · exact trinv_addReactions h p cap f g
+    · exact h
   | popJob =>
     simp only [applyOp, popJob]
     split
     · exact h
-    · split <;> exact trinv_congr h rfl rfl
+    · exact trinv_congr h (popJobQ_tracker k) (popJobQ_proms k)
+  | asyncStart => exact trinv_congr h rfl rfl
+  | await ar p =>
+    simp only [applyOp, awaitOp]
+    split
+    · exact trinv_congr (trinv_addReactions h p none _ _) rfl rfl
+    · exact h
+  | asyncDone ar =>
+    simp only [applyOp, asyncDone]
+    split
+    · exact trinv_congr h rfl rfl
+    · exact h
   | leaveAbrupt => exact trinv_congr h rfl rfl
 
 theorem trinv_reach {k : K} (h : Reach k) : TrInv k := by
